@@ -229,6 +229,37 @@ def retype_original_then_inline(src):
     return f
 
 
+def original_typedefs_untouched(src):
+    """clone; the ORIGINAL must keep resolving its derived-type names to its OWN type definitions (identity), and an
+    in-place edit of the clone's type definitions (an extent of every array component is enlarged) must not reach the
+    original, which is interpreted afterwards and compared with the pristine program"""
+    def f(p):
+        from loki import FindNodes, SubstituteExpressions  # pylint: disable=import-outside-toplevel
+        c = p.sourcefile.clone()
+        units = list(p.sourcefile.modules) + list(p.sourcefile.routines)
+        n = 0
+        for u in units:
+            for td in FindNodes(ir.TypeDef).visit(u.spec):
+                n += 1
+                attrs = u.symbol_attrs.get(td.name)
+                got = getattr(getattr(attrs, 'dtype', None), 'typedef', None)
+                if got is not td:
+                    owner = getattr(getattr(got, 'parent', None), 'name', None)
+                    raise AssertionError(f'after clone the original {u.name} resolves type {td.name} to a definition that is not its own '
+                                         f'(node of {"the clone" if got is not None else "nothing"}, parent {owner})')
+        if not n:
+            raise RuntimeError('no type definition to re-type')
+        for u in list(c.modules) + list(c.routines):
+            for td in FindNodes(ir.TypeDef).visit(u.spec):
+                for decl in FindNodes(ir.VariableDeclaration).visit(td.body):
+                    new = tuple(v.clone(dimensions=tuple(sym.Sum((d, sym.IntLiteral(1))) for d in v.dimensions))
+                                if getattr(v, 'dimensions', None) else v for v in decl.symbols)
+                    decl._update(symbols=new)   # in place: the clone owns these nodes
+        p.text = None
+        return Prog.from_source(src, p.entry.name, absent=p.absent), p
+    return f
+
+
 def clone_scoped(p):
     c = p.sourcefile.clone()
     assert_scoped_through(c, 'clone')
@@ -281,6 +312,9 @@ def c17_cases():
                         raise_is_violation=True))
         out.append(Case(f'{name}/clone-symbols-scoped-through-clone', src, entry, sizes[:1], clone_scoped, 'clone', must_change=False,
                         raise_is_violation=('AssertionError',)))
+        if 'end type' in src.lower():
+            out.append(Case(f'{name}/original-typedefs-untouched-by-clone-edits', src, entry, sizes[:1], original_typedefs_untouched(src),
+                            'clone', must_change=False, raise_is_violation=('AssertionError',)))
         if 'parameter' in src.lower() and 'module' in src.lower():
             out.append(Case(f'{name}/retype-original-parameters-then-inline-clone', src, entry, sizes[:1], retype_original_then_inline(src),
                             'clone', must_change=False))
